@@ -40,6 +40,16 @@ Theorem writelog_complete : forall (old : kvmap) (ops : list op) (k : bytes),
 Proof. exact writelog_complete_lem. Qed.
 Print Assumptions writelog_complete.
 
+(* forks: whichever candidate root of a version is asked for, on either
+   backend, before or after finalization, a served log is correct *)
+Theorem served_fork_log_correct :
+  forall (old : kvmap) (ops : list op) (b : backend) (seq : N) (f : fstate) (wl' : writelog),
+  sorted old ->
+  serve b seq f (commit_writelog (run_batch old ops)) = Some wl' ->
+  apply_writelog old wl' = contents (run_batch old ops).
+Proof. exact served_fork_log_correct_lem. Qed.
+Print Assumptions served_fork_log_correct.
+
 (* ApplyWriteLog's pending-log bookkeeping does not change what is applied *)
 Theorem apply_writelog_is_fold : forall (old : kvmap) (wl : writelog),
   apply_writelog old wl = fold_left apply_entry wl old.
